@@ -57,7 +57,11 @@ func main() {
 			fmt.Println(err)
 			os.Exit(2)
 		}
-		if os.Getenv("GMSL_TABLE") != "" {
+		if os.Getenv("GMSL_INDEX") != "" {
+			fw.DumpIndexSites(prog, os.Args[2])
+		} else if os.Args[2] == "panics" {
+			fw.DumpPanics(prog)
+		} else if os.Getenv("GMSL_TABLE") != "" {
 			fw.DumpTable(prog, os.Args[2], -1)
 		} else {
 			fw.DumpFunc(prog, os.Args[2])
